@@ -27,4 +27,18 @@ def generate(rng, tier):
         for _ in range(2):
             out.append((G.case_text(rules, root, G.rand_input(rng, 5), offset=rng.choice([1, 1, 2, 7]), flags=flags),
                         {"stream": "random"}))
+    # literal terminals (text/terminal through Literals.v) mixed with trimming, over inputs built from literal fragments
+    n = 250 if tier == "quick" else 2000
+    for i in range(n):
+        if i % 10 == 0:
+            rules, root = G.json_like(rng)
+        elif i % 10 == 1:
+            rules, root = G.arith_like(rng)
+        else:
+            rules, root = G.rand_lit_grammar(rng)
+        flags = 1 if G.lr_free(rules) else 0
+        for j in range(3):
+            data = G.rand_lit_input(rng) if j == 0 else G.rand_lit_input_for(rng, rules, root)
+            out.append((G.case_text(rules, root, data, offset=rng.choice([1, 1, 2, 7]), flags=flags),
+                        {"stream": "literals"}))
     return out
